@@ -369,24 +369,49 @@ pub fn run_cli(exe: &str, args: &[String], stdin_bytes: &[u8], timeout: Duration
 // ------------------------------------------------------------------------------------------
 
 pub struct ItemResult {
-    /// outcome arrays `[api, r, m, msg, loc, pos?]`
+    /// outcome arrays `[api, r, m, msg, loc, pos?]` — all of them when `compact` is empty,
+    /// otherwise only the anomalous ones (r < 0)
     pub outs: Vec<Value>,
+    /// compact reply: one char per API of the caller's API table
+    /// ('v' value, 'e' error, 'P' anomalous -> see outs, 'L' documented limit, '-' not run)
+    pub compact: String,
     /// inconclusive sub-results: (api or "*", kind) — wall-clock overrun, or an allocation of a
     /// size that could legitimately exist refused by the sandbox limit
     pub inconclusive: Vec<(String, String)>,
 }
 
 fn parse_reply(l: &str) -> Option<Vec<Value>> {
-    serde_json::from_str::<Value>(l).ok().and_then(|v| v.as_array().cloned())
+    match serde_json::from_str::<Value>(l).ok()? {
+        Value::Array(a) => Some(a),
+        _ => None,
+    }
+}
+
+fn item_of(v: Value) -> ItemResult {
+    match v {
+        Value::Array(a) => ItemResult { outs: a, compact: String::new(), inconclusive: vec![] },
+        Value::Object(mut o) => {
+            let c = o.get("c").and_then(|x| x.as_str()).unwrap_or("").to_string();
+            let a = match o.remove("a") {
+                Some(Value::Array(a)) => a,
+                _ => vec![],
+            };
+            ItemResult { outs: a, compact: c, inconclusive: vec![] }
+        }
+        _ => ItemResult { outs: vec![], compact: String::new(), inconclusive: vec![] },
+    }
 }
 
 /// One item alone; if the worker dies, one fresh request per API finds the call that killed it.
 fn run_single(sup: &mut Supervisor, payload: &str, apis: &[String], timeout: Duration) -> ItemResult {
-    let mut res = ItemResult { outs: vec![], inconclusive: vec![] };
+    let mut res = ItemResult { outs: vec![], compact: String::new(), inconclusive: vec![] };
+    // ask for the full form ("S" prefix = sampled) so the per-API fallback below can extend it
+    let payload = if let Some(p) = payload.strip_prefix('S') { p } else { payload };
+    let payload = &format!("S{payload}");
     match sup.request(&format!("* {payload}"), timeout) {
         Reply::Line(l) => {
-            if let Some(a) = parse_reply(&l).and_then(|a| a.first().cloned()).and_then(|v| v.as_array().cloned()) {
-                res.outs = a;
+            if let Some(v) = parse_reply(&l).and_then(|mut a| if a.is_empty() { None } else { Some(a.remove(0)) }) {
+                res = item_of(v);
             } else {
                 verif_harness::die(&format!("bad worker reply: {l}"));
             }
@@ -396,8 +421,8 @@ fn run_single(sup: &mut Supervisor, payload: &str, apis: &[String], timeout: Dur
             for api in apis {
                 match sup.request(&format!("{api} {payload}"), timeout) {
                     Reply::Line(l) => {
-                        if let Some(a) = parse_reply(&l).and_then(|a| a.first().cloned()).and_then(|v| v.as_array().cloned()) {
-                            res.outs.extend(a);
+                        if let Some(v) = parse_reply(&l).and_then(|mut a| if a.is_empty() { None } else { Some(a.remove(0)) }) {
+                            res.outs.extend(item_of(v).outs);
                         }
                     }
                     Reply::Timeout => res.inconclusive.push((api.clone(), "timeout".into())),
@@ -458,8 +483,7 @@ pub fn run_supervised(
                     match whole {
                         Some(a) => {
                             for (k, v) in a.into_iter().enumerate() {
-                                let outs = v.as_array().cloned().unwrap_or_default();
-                                let _ = tx.send((lo + k, ItemResult { outs, inconclusive: vec![] }));
+                                let _ = tx.send((lo + k, item_of(v)));
                             }
                         }
                         None => {
@@ -484,7 +508,7 @@ pub fn run_supervised(
 
 /// Worker side: read request lines `<only|*> <payload>,<payload>,...`, answer one line with
 /// a JSON array holding one outcome list per payload.
-pub fn worker_loop(mut f: impl FnMut(&str, &str) -> Vec<Value>) {
+pub fn worker_loop(mut f: impl FnMut(&str, &str) -> Value) {
     use std::io::BufRead;
     install_hook();
     let stdin = std::io::stdin();
@@ -502,10 +526,34 @@ pub fn worker_loop(mut f: impl FnMut(&str, &str) -> Vec<Value>) {
         let only = if only == "*" { "" } else { only };
         let mut all = vec![];
         for p in rest.split(',') {
-            all.push(Value::Array(f(only, p)));
+            all.push(f(only, p));
         }
         let mut o = stdout.lock();
         let _ = writeln!(o, "{}", Value::Array(all));
         let _ = o.flush();
     }
+}
+
+/// Compact form of an outcome list: one char per API of `table` plus the anomalous outcomes.
+pub fn compact_of(table: &[&str], outs: Vec<Value>) -> Value {
+    let mut c: Vec<u8> = vec![b'-'; table.len()];
+    let mut a = vec![];
+    for o in outs {
+        let api = o[0].as_str().unwrap_or("");
+        let r = o[1].as_i64().unwrap_or(-9);
+        let i = table.iter().position(|x| *x == api);
+        let ch = match r {
+            0 => b'v',
+            1 => b'e',
+            -4 => b'L',
+            _ => b'P',
+        };
+        if let Some(i) = i {
+            c[i] = ch;
+        }
+        if ch == b'P' || i.is_none() {
+            a.push(o);
+        }
+    }
+    json!({"c": String::from_utf8(c).unwrap_or_default(), "a": a})
 }
